@@ -71,7 +71,9 @@ const (
 	// with the histogram bucket bound values.
 	DefaultHistogramBucketTagPrecision = uint(6)
 
-	_emitMetricBatchOverhead    = 19
+	// _metricListSizeSlack covers the growth of the encoded length of the
+	// metrics list, which is measured for an empty list.
+	_metricListSizeSlack        = 5
 	_minMetricBucketIDTagLength = 4
 	_timeResolution             = 100 * time.Millisecond
 )
@@ -243,7 +245,10 @@ func NewReporter(opts Options) (Reporter, error) {
 		proto = resourcePool.getProto()
 	)
 
-	if err := batch.Write(proto); err != nil {
+	// n.b. Measure the whole envelope of an emitMetricBatchV2 message around an
+	//      empty batch (message header with the largest sequence id, argument
+	//      struct, common tags) rather than assuming a constant for it.
+	if err := writeEmptyBatchEnvelope(proto, batch); err != nil {
 		return nil, errors.WithMessage(
 			err,
 			"failed to write to proto for size calculation",
@@ -254,7 +259,7 @@ func NewReporter(opts Options) (Reporter, error) {
 
 	var (
 		calc             = proto.Transport().(*customtransport.TCalcTransport)
-		numOverheadBytes = _emitMetricBatchOverhead + calc.GetCount()
+		numOverheadBytes = _metricListSizeSlack + calc.GetCount()
 		freeBytes        = opts.MaxPacketSizeBytes - numOverheadBytes
 	)
 	calc.ResetCount()
@@ -408,11 +413,9 @@ func (r *reporter) AllocateHistogram(
 				durationUpperBound: pair.UpperBoundDuration(),
 				metric:             &counter,
 			}
-			delta = len(r.bucketIDTagName) + len(r.bucketTagName) + len(hbucket.bucketID)
 		)
 
 		hbucket.metric.metric.Tags = mtags
-		hbucket.metric.size = r.calculateSize(hbucket.metric.metric)
 
 		if isDuration {
 			bname := r.stringInterner.Intern(
@@ -420,7 +423,7 @@ func (r *reporter) AllocateHistogram(
 					r.durationBucketString(pair.UpperBoundDuration()),
 			)
 			hbucket.bucket = bname
-			hbucket.metric.size += int32(delta + len(bname))
+			hbucket.metric.size = r.calculateBucketSize(hbucket)
 			cachedDurationBuckets = append(cachedDurationBuckets, hbucket)
 		} else {
 			bname := r.stringInterner.Intern(
@@ -428,7 +431,7 @@ func (r *reporter) AllocateHistogram(
 					r.valueBucketString(pair.UpperBoundValue()),
 			)
 			hbucket.bucket = bname
-			hbucket.metric.size += int32(delta + len(bname))
+			hbucket.metric.size = r.calculateBucketSize(hbucket)
 			cachedValueBuckets = append(cachedValueBuckets, hbucket)
 		}
 
@@ -504,6 +507,34 @@ func (r *reporter) calculateSize(m m3thrift.Metric) int32 {
 	r.calc.ResetCount()
 	r.calcLock.Unlock()
 	return size
+}
+
+// calculateBucketSize measures a histogram bucket's metric the way it is
+// emitted: with the bucket id and bucket range tags appended to its tags.
+func (r *reporter) calculateBucketSize(b cachedHistogramBucket) int32 {
+	m := b.metric.metric
+	tags := make([]m3thrift.MetricTag, 0, len(m.Tags)+2)
+	tags = append(tags, m.Tags...)
+	tags = append(
+		tags,
+		m3thrift.MetricTag{Name: r.bucketIDTagName, Value: b.bucketID},
+		m3thrift.MetricTag{Name: r.bucketTagName, Value: b.bucket},
+	)
+	m.Tags = tags
+	return r.calculateSize(m)
+}
+
+// writeEmptyBatchEnvelope writes what surrounds the metrics of one emitted
+// batch: the message header, the argument struct and the batch itself.
+func writeEmptyBatchEnvelope(proto thrift.TProtocol, batch m3thrift.MetricBatch) error {
+	if err := proto.WriteMessageBegin("emitMetricBatchV2", thrift.ONEWAY, math.MaxInt32); err != nil {
+		return err
+	}
+	args := m3thrift.M3EmitMetricBatchV2Args{Batch: batch}
+	if err := args.Write(proto); err != nil {
+		return err
+	}
+	return proto.WriteMessageEnd()
 }
 
 func (r *reporter) reportCopyMetric(
